@@ -1625,8 +1625,10 @@ class SymbolicDim(_protocols.SymbolicDimProtocol, _display.PrettyPrintable):
             return SymbolicDim(None)
         try:
             simplified = sympy.simplify(self._expr)
-        except ZeroDivisionError:
-            # sympy.simplify may probe sub-expressions such as Mod(x, 0) while rewriting sign()
+        except Exception:  # noqa: BLE001
+            # Simplification is best effort: sympy.simplify may probe sub-expressions such as Mod(x, 0)
+            # while rewriting sign(), compare nan inside Min/Max or exhaust its precision on nested
+            # floor/ceiling. The unsimplified dimension is always a valid answer.
             return SymbolicDim(self._expr)
         if simplified.has(sympy.Piecewise):
             # sympy.simplify rewrites sign()/Abs() into Piecewise((..., Eq(...)), ...), which the
